@@ -28,8 +28,12 @@ try:
     env = lambda sub: dict(os.environ, PYTHONPATH=os.path.join(d, sub), DATAITER_USE_NUMBA=os.environ.get("DATAITER_USE_NUMBA", "false"))
     clean = run(["/venv/bin/python", os.path.abspath(demo)], env=env("clean"), cwd=os.path.join(d, "clean"))
     changed = run(["/venv/bin/python", os.path.abspath(demo)], env=env("changed"), cwd=os.path.join(d, "changed"))
+    # fresh Numba cache for the test run: kernels cached by the demonstration process in another compile order would trigger
+    # the known compile-order finding (C08) inside the suite
+    os.makedirs(os.path.join(d, "nbcache"), exist_ok=True)
     tests = run(["/venv/bin/python", "-m", "pytest", "-q", "-x", "-p", "no:cacheprovider", "--timeout=900"] +
-                [x for t in DESEL for x in ("--deselect", t)] + ["dataiter/test"], cwd=os.path.join(d, "changed"))
+                [x for t in DESEL for x in ("--deselect", t)] + ["dataiter/test"], cwd=os.path.join(d, "changed"),
+                env=dict(os.environ, NUMBA_CACHE_DIR=os.path.join(d, "nbcache")))
     results = {}
     for c in checks:
         cr = run(["/verif/check", c], env=dict(os.environ, VERIF_REPO=os.path.join(d, "changed")))
